@@ -66,7 +66,7 @@ class SchedProp(Prop):
                     else:
                         ops.append(['iter'])
                 ops += [['iter'], ['iter']]
-                yield {'kind': 'sched', 'cfg': cfg, 'nodes': nodes, 'ops': ops, 'disciplined': True}
+                yield {'kind': 'sched', 'cfg': cfg, 'nodes': nodes, 'ops': ops, 'disciplined': True, 'names': 'same'}
 
     def impl_setup(self):
         self.rp = rp_import()
